@@ -2,7 +2,7 @@
    - [pct_enc S s] : percent_encode(s, set): every byte b with [S b = true] becomes '%' followed
      by two UPPER-case hex digits, every other byte is copied.  (The crate encodes every
      non-ASCII byte whatever the AsciiSet says: callers put [128 <=? b] into [S].)
-   - [pct_dec s]   : percent_decode(s): "%XY" with X, Y hex digits of either case becomes the
+   - [pct_dec s]   : percent_decode(s): '%XY' with X, Y hex digits of either case becomes the
      byte 16*X+Y; a '%' that is not followed by two hex digits is copied and decoding resumes
      at the next byte.
    Bytes are N (< 256 where a lemma needs it); byte strings are lists.  Definitions only; the
